@@ -119,6 +119,28 @@ def observe_hg(b, obj, rng, tensor=False):
     return c
 
 
+def quarter_case(b, n, edges, rng):
+    """weighted hypergraph with weights k/4 (0.25 .. 3.0): weights and incidence entries are logged x 4"""
+    obj = b.new(True)
+    ws = {}
+    with quiet():
+        for v in edges:
+            w = rng.choice([1, 2, 3, 5, 6, 7, 9, 10, 11, 12]) / 4.0
+            obj.add_edge(b._tuple(v), weight=w)
+            ws[tuple(sorted(v))] = ws.get(tuple(sorted(v)), 0) + w
+    st = b.state(obj)
+    for e in st["edges"]:
+        e["w"] = int(round(ws[tuple(e["k"]["s"])] * 4))
+    st["err"] = ";".join(x for x in st["err"].split(";") if x and not x.startswith("weight_type"))
+    import hypergraphx.linalg.linalg as L
+
+    def call():
+        M, mp = (obj.incidence_matrix(return_mapping=True) if rng.random() < 0.5
+                 else L.incidence_matrix(obj, return_mapping=True))
+        return M * 4, mp
+    return {"kind": "hgq", "st": st, "winc": mat(b, call)}
+
+
 def observe_temp(b, obj, rng):
     import hypergraphx.linalg.linalg as L
     c = {"kind": "temp", "st": b.state(obj)}
@@ -320,6 +342,28 @@ def run(tier, seed):
         for kind, items in (("hg", hin), ("temp", tin)):
             for start in range(0, len(items), ROUND):
                 _round(res, kind, seed, start, items[start:start + ROUND], pool, agg)
+        # non-integer weights (quarters), weighted incidence only
+        qrng = random.Random(seed * 31 + 7)
+        qc, qd = [], []
+        for i in range(40 if tier == "quick" else 600):
+            n = qrng.randint(2, 5)
+            es = list({tuple(sorted(qrng.sample(range(1, n + 1), qrng.randint(1, n)))) for _ in range(qrng.randint(1, 5))})
+            fam = ("ident", "sparse", "str", "zero")[i % 4]
+            b = Binding("hg", LABEL_FAMILIES[fam](n), qrng)
+            qc.append(quarter_case(b, n, es, qrng))
+            qd.append({"kind": "hgq", "n": n, "hyperedges": [list(e) for e in es], "family": fam, "labels": b.labels})
+        v = K.run_cases("Trace_C09", qc, {"Kind": "hg"}, procs=4)
+        for idx, failed in v["rejects"]:
+            d = qd[idx]
+            res.reject({"clauses": failed, "labels": d["family"] if d["family"] == "zero" else "other"},
+                       "%s disagree(s) with Matrices.tla for a hypergraph with non-integer weights %s (labels %s)"
+                       % (",".join(failed), d["hyperedges"], d["labels"]), {"case": d, "seed": seed, "logged": strip(qc[idx]), "state": qc[idx]["st"]})
+        for c, d in zip(qc, qd):
+            if nonint(c):
+                res.reject({"clauses": ["quarter_entries"]}, "weighted incidence of quarter weights is not a multiple of 1/4: %s" % d["hyperedges"],
+                           {"case": d, "seed": seed, "logged": strip(c)})
+        agg["cases"] += len(qc)
+        res.cov(fractional_weight_cases=len(qc))
     finally:
         if pool is not None:
             pool.close()
